@@ -15,8 +15,10 @@ MANIFEST = dict(
     technique='Rocq proof (generic chunked-reader = flat-reader simulation for every reader program; totality, progress, '
               'EOF-for-ever and a linear read bound for the tokenizer model by induction on fuel; push-back-stack refinement and '
               'bisimulation for the BaseTokenizer layer; exception-level model of Keyvalues.parse configured by a census of the '
-              'parse path) + exhaustive small-scope differential correspondences (in-kernel enumeration, 63-bit checksums) + '
-              'chunking / delivery / foreign-exception oracles on the implementation',
+              'parse path; _get_token / _handle_comment / _handle_string / _next_char read from the source by abstract execution into '
+              'decision trees / tables whose interpretation is proved equal to the hand model when they pass boolean conditions) + '
+              'exhaustive small-scope differential correspondences (in-kernel enumeration, 63-bit checksums) + '
+              'chunking / delivery / foreign-exception / chunk-source oracles on the implementation',
     text='Theorems in Props/C03.v: no reader program can distinguish a chunked source (the _cur_chunk/_char_index/iterator state '
          'of the real class, _next_char and the one-character push-back modelled literally) from the flat text, so token '
          'traces (kind, value, line_num, _last_was_cr, error site and line) are identical for every chunking, every option '
@@ -39,6 +41,19 @@ MANIFEST = dict(
          'The premise of the chunk-independence theorem is itself read from the source: outside __init__ and _next_char no method of '
          'Tokenizer touches _cur_chunk/_char_index/_chunk_iter except by `self._char_index -= 1`, never twice without a read (census '
          'obligations tokenizer_sees_chunks_only_through_next_char / tokenizer_pushes_back_only_after_a_read). '
+         'Round 4: the tokenizer AS WRITTEN. _get_token and _handle_comment are cut into eight segments (outer loop, the four inner loops, '
+         'the entry of _handle_comment and its two loops), each executed on abstract values into a decision tree over the class of the '
+         'character(s) read, membership in _OPERATORS / BARE_DISALLOWED, _last_was_cr, line_num == 1 and the options; a tree has a meaning as a '
+         'reader program (Text/GtTable.v gt_interp), and if the eight trees compute the model\'s functions on every consistent abstract '
+         'environment (eight obligations, complete enumeration in the kernel) the interpretation IS the hand model get_token on every input, '
+         'flat and chunked, call after call (c03_get_token_trees_are_the_model*, c03_tokenizer_as_written_any_chunking/_total, with '
+         '_handle_string from its own table). _next_char is read as a table over what the chunk iterator can do next (yield bytes / another '
+         'non-str object / empty / non-empty str, be exhausted, raise UnicodeDecodeError / another exception); under '
+         'next_char_rows_are_the_model it IS the reader cnext on str chunks (c03_next_char_is_cnext), and the first non-text item is '
+         'answered precisely: ValueError for bytes / non-str objects (not a text: outside the property, nothing silently dropped), the '
+         'tokenizer\'s own error for UnicodeDecodeError (covered by "TokenSyntaxError and nothing else"), any other exception propagates '
+         '(c03_next_char_first_non_text). A state census (no data attribute bound in the class body, no self attribute / module name '
+         'outside the modelled state read or written by the three functions, constant tables never mutated) backs "nothing outlives a call". '
          'Correspondences on every run: tokenizer model vs real Tokenizer on every string over a 23-symbol alphabet up to length 3 x '
          'all 128 option vectors in both tiers (implementation runs shared between option vectors that agree on every option a run '
          'read; thorough also length 4 x 16), random texts, reader state after '
@@ -49,12 +64,16 @@ MANIFEST = dict(
          'structured random token streams and texts. The implementation alone is checked for chunked == unchunked on all cut sets, '
          'foreign exceptions, EOF for ever, the read bound, and delivery = plain stream under peeks and push-backs.',
     note='Trusted: Coq kernel + vm_compute (incl. primitive Uint63 for checksums), the translators (c02_tables, c03_kvparse, '
-         'c03_basetok, c03_errfmt, c02_hstring), the hand models Text/Tokenizer.v, Text/BaseTok.v (helper loops) and Text/KvErrModel.v (tied by the exhaustive '
-         'differential runs), CPython str/casefold. The parser model abstracts the tree to "child list empty or not" (exact for the '
+         'c03_basetok, c03_errfmt, c02_hstring, c02_gettoken, c03_nextchar: the abstract executors are fail-closed outside their statement '
+         'languages; a wrong tree they produced would have to coincide with the model\'s function AND escape the exhaustive differential '
+         'runs), the hand models Text/BaseTok.v (helper loops) and Text/KvErrModel.v (tied by the exhaustive differential runs; Text/Tokenizer.v '
+         'is now additionally tied by the trees), CPython str/casefold. The parser model abstracts the tree to "child list empty or not" (exact for the '
          'outcome class; the tree itself is C01\'s subject) and consumes the logical token list (push_back = not consumed). '
          'FLAGS_DEFAULT entries that depend on the platform are read from the running interpreter. The literal message texts of the '
          'individual error sites are outside the models (errors are identified by site / message prefix; the text model is generic over '
-         'them). Tokenizer built from an iterator of non-str chunks (documented ValueError) is outside the property. Cython twin not covered.',
+         'them; the tree translator maps each text to its site, an unknown text is site 99 and fails the tree obligation). A chunk source '
+         'yielding non-str objects is not a text (outside the property); what happens there is nevertheless modelled (ValueError) and '
+         'checked by the chunk-source oracle. Cython twin not covered.',
 )
 
 SYN_ALPHA = ['"', '\\', '/', '*', '{', '}', '[', ']', '(', ')', '#', ':', '+', '=', ',', '\r', '\n', ' ', 'a', 'n', '\ufeff', "'", ';']
